@@ -29,10 +29,15 @@ type wcase struct {
 	Seed    int64
 	FailAt  int
 	Short   int
+	// NoFlush: DisableFlush() (plain writes grow the buffer and reach the destination only at Flush);
+	// Ext: a send extension that sets RSV2 on every frame; Ctor: bufsize | size | get.
+	NoFlush bool
+	Ext     bool
+	Ctor    string
 }
 
 func (c wcase) describe() interface{} {
-	return map[string]interface{}{"client": c.Client, "bufsize": c.BufSize, "ops": c.Ops, "fail_at_write": c.FailAt, "short": c.Short}
+	return map[string]interface{}{"client": c.Client, "bufsize": c.BufSize, "ops": c.Ops, "fail_at_write": c.FailAt, "short": c.Short, "disable_flush": c.NoFlush, "extension": c.Ext, "ctor": c.Ctor}
 }
 
 type wresult struct {
@@ -48,7 +53,25 @@ func (c wcase) apply(rec *tx.Rec) (res []wresult, callsAfter []int, failedAtOp i
 	if c.Client {
 		state = ws.StateClientSide
 	}
-	w := wsutil.NewWriterBufferSize(rec, state, ws.OpBinary, c.BufSize)
+	var w *wsutil.Writer
+	switch c.Ctor {
+	case "size":
+		w = wsutil.NewWriterSize(rec, state, ws.OpBinary, c.BufSize)
+	case "get":
+		w = wsutil.GetWriter(rec, state, ws.OpBinary, c.BufSize)
+		defer wsutil.PutWriter(w)
+	default:
+		w = wsutil.NewWriterBufferSize(rec, state, ws.OpBinary, c.BufSize)
+	}
+	if c.NoFlush {
+		w.DisableFlush()
+	}
+	if c.Ext {
+		w.SetExtensions(wsutil.SendExtensionFunc(func(h ws.Header) (ws.Header, error) {
+			h.Rsv |= ws.Rsv(false, true, false)
+			return h, nil
+		}))
+	}
 	failedAtOp = -1
 	for i, op := range c.Ops {
 		var r wresult
@@ -69,6 +92,8 @@ func (c wcase) apply(rec *tx.Rec) (res []wresult, callsAfter []int, failedAtOp i
 			r = wresult{0, w.Flush()}
 		case "fragment":
 			r = wresult{0, w.FlushFragment()}
+		case "grow":
+			w.Grow(op.N)
 		case "resetop":
 			// the quick opcode reset keeps the destination: a recorded destination failure must survive it
 			w.ResetOp(ws.OpText)
@@ -86,9 +111,11 @@ func drawOps(t *rapid.T, bufsize int) []wop {
 	n := rapid.IntRange(2, 14).Draw(t, "nops")
 	ops := make([]wop, n)
 	for i := range ops {
-		kind := rapid.SampledFrom([]string{"write", "write", "write", "through", "readfrom", "flush", "flush", "fragment", "resetop"}).Draw(t, "op")
+		kind := rapid.SampledFrom([]string{"write", "write", "write", "through", "readfrom", "flush", "flush", "fragment", "resetop", "grow"}).Draw(t, "op")
 		size := 0
 		switch kind {
+		case "grow":
+			size = rapid.SampledFrom([]int{1, bufsize, 3 * bufsize}).Draw(t, "grow")
 		case "write", "through", "readfrom":
 			size = rapid.SampledFrom([]int{0, 1, bufsize / 2, bufsize - 11, bufsize, bufsize + 1, 2*bufsize + 3, 300}).Draw(t, "size")
 			if size < 0 {
@@ -109,6 +136,9 @@ func TestWriterFaults(t *testing.T) {
 			BufSize: rapid.SampledFrom([]int{16, 20, 64, 131, 140, 4096}).Draw(t, "bufsize"),
 			Seed:    rapid.Int64().Draw(t, "seed"),
 			FailAt:  -1,
+			NoFlush: rapid.IntRange(0, 3).Draw(t, "noflush") == 0,
+			Ext:     rapid.IntRange(0, 3).Draw(t, "ext") == 0,
+			Ctor:    rapid.SampledFrom([]string{"bufsize", "bufsize", "size", "get"}).Draw(t, "ctor"),
 		}
 		c.Ops = drawOps(t, c.BufSize)
 		clean := tx.NewRec()
@@ -116,6 +146,7 @@ func TestWriterFaults(t *testing.T) {
 		uncut := clean.Bytes()
 		total := len(clean.Calls)
 		hx.Class(fmt.Sprintf("writer/destwrites=%d", min(total, 6)))
+		hx.Class(fmt.Sprintf("writer/ctor=%s/noflush=%v/ext=%v", c.Ctor, c.NoFlush, c.Ext))
 		n := 0
 		for k := 0; k < total; k++ {
 			shorts := []int{0}
@@ -130,7 +161,7 @@ func TestWriterFaults(t *testing.T) {
 				res, callsAfter, failedAtOp := cc.apply(rec)
 				n++
 				if k >= 1 {
-					hx.NonTrivial(hx.Hash(fmt.Sprint(c.Ops), c.Client, c.BufSize, k, short), cc.describe)
+					hx.NonTrivial(hx.Hash(fmt.Sprint(c.Ops), c.Client, c.BufSize, k, short, c.NoFlush, c.Ext, c.Ctor), cc.describe)
 				}
 				if failedAtOp < 0 {
 					t.Fatalf("harness: destination write %d never happened in the faulty run\ncase: %s", k, hx.JSON(cc.describe()))
@@ -147,8 +178,8 @@ func TestWriterFaults(t *testing.T) {
 				// every later write and flush reports an error
 				for i := failedAtOp + 1; i < len(cc.Ops); i++ {
 					switch cc.Ops[i].Kind {
-					case "readfrom", "resetop":
-						continue // only "no further byte" is asserted for ReadFrom; ResetOp returns nothing
+					case "readfrom", "resetop", "grow":
+						continue // only "no further byte" is asserted for ReadFrom; ResetOp and Grow return nothing
 					}
 					if res[i].err == nil {
 						t.Fatalf("op %d (%v) after the failed destination write %d (during op %d) reported success\ncase: %s", i, cc.Ops[i], k, failedAtOp, hx.JSON(cc.describe()))
